@@ -274,6 +274,37 @@ func (h *heapRun) applyQuery(o *obj, st Step, ret map[string]interface{}) bool {
 		aligner := align.NewPwAligner(s1, s2, align.ALIGN_ALGO_SW)
 		_, err := aligner.Alignment()
 		ret["err"] = err != nil
+	case "swatg":
+		// the ATG variant reverses its working copies; gaps and other non-residues take the error path
+		if al.NbSequences() < 2 {
+			return true
+		}
+		s1, _ := al.Sequence(0)
+		s2, _ := al.Sequence(1)
+		aligner := align.NewPwAligner(s1, s2, align.ALIGN_ALGO_ATG)
+		_, err := aligner.Alignment()
+		ret["err"] = err != nil
+	case "phase":
+		if al.Alphabet() != align.NUCLEOTIDS || al.NbSequences() < 1 {
+			return true
+		}
+		orf, err := al.LongestORF(false)
+		if err != nil {
+			ret["err"] = true
+			return true
+		}
+		ref := align.NewSeqBag(align.UNKNOWN)
+		ref.AddSequence(orf.Name(), orf.Sequence(), orf.Comment())
+		ph := align.NewPhaser()
+		ph.SetTranslate(true, 0)
+		ph.SetCpus(2)
+		ch, err := ph.Phase(ref, al)
+		if err != nil {
+			ret["err"] = true
+			return true
+		}
+		for range ch {
+		}
 	case "orf":
 		_, err := al.LongestORF(true)
 		ret["err"] = err != nil
